@@ -123,4 +123,13 @@ def parts(tier):
             ),
             cases=1600 if q else 50000, batch=200,
         ),
+        core.Part(
+            'timers', execute,
+            strategy=sim.histories(
+                weights={'req': 3, 'timer': 8},
+                spec_kw={'kinds': ('task', 'task', 'analysis', 'analysis',
+                                   'regress'), 'events': True},
+            ),
+            cases=400 if q else 12500, batch=200,
+        ),
     ]
